@@ -353,7 +353,11 @@ func viPathExists(root *ssa.Function, from, to ssa.Instruction, cutEdge EdgePred
 		work = append(work, vpoint{fr: fr, blk: b, idx: i, ret: ret, rk: rk, benv: cur.benv, bk: cur.bk})
 	}
 	push := func(fr *frame, b *ssa.BasicBlock, i int) { pushR(fr, b, i, cur.ret, cur.rk) }
+	edgeHit := false
 	pushFrom := func(fr *frame, b, pred *ssa.BasicBlock) {
+		if targetEdge[0] != nil && pred == targetEdge[0] && b == targetEdge[1] {
+			edgeHit = true // the search is for this CFG edge (pathExistsToEdge)
+		}
 		benv, bk := boolPhiEnv(cur.benv, cur.bk, b, pred)
 		k := fr.key + "|" + b.Parent().Name() + "#" + itoa(b.Index) + ":0|" + cur.rk + "|" + bk
 		if seen[k] {
@@ -362,6 +366,7 @@ func viPathExists(root *ssa.Function, from, to ssa.Instruction, cutEdge EdgePred
 		seen[k] = true
 		work = append(work, vpoint{fr: fr, blk: b, idx: 0, ret: cur.ret, rk: cur.rk, benv: benv, bk: bk})
 	}
+	defer func() { _ = edgeHit }()
 	if from == nil {
 		push(newFrame(root, nil, nil), root.Blocks[0], 0)
 	} else {
@@ -432,8 +437,11 @@ func viPathExists(root *ssa.Function, from, to ssa.Instruction, cutEdge EdgePred
 				pushFrom(fr, s, b)
 			}
 		}
+		if edgeHit {
+			return true
+		}
 	}
-	return false
+	return edgeHit
 }
 
 func itoa(i int) string {
@@ -742,4 +750,22 @@ func anonFuncsDeep(f *ssa.Function) []*ssa.Function {
 		}
 	}
 	return out
+}
+
+// targetEdge, when set, makes viPathExists look for a CFG edge instead of an instruction.
+var targetEdge [2]*ssa.BasicBlock
+
+// pathExistsToEdge: some path from the entry of f (from == nil) or from just after `from` takes the CFG edge
+// pred -> succ without crossing an edge accepted by cutEdge. Boolean phis are resolved along the way, so the false
+// edge of `if ok` with `ok := a && b` is reached only through `a` false or `b` false.
+func pathExistsToEdge(f *ssa.Function, from ssa.Instruction, pred, succ *ssa.BasicBlock, cutEdge EdgePred) bool {
+	targetEdge = [2]*ssa.BasicBlock{pred, succ}
+	defer func() { targetEdge = [2]*ssa.BasicBlock{} }()
+	any := false
+	for _, root := range rootsOf(f) {
+		if viPathExists(root, from, nil, cutEdge, nil) {
+			any = true
+		}
+	}
+	return any
 }
